@@ -124,8 +124,10 @@ def run_harness(ctx, scenarios, label, shards=None, race=False, timeout=900):
 
     def one(p):
         out = p + '.tr'
-        pr = subprocess.run([exe, 'srv', '--in', p, '--out', out], cwd=ctx.scratch, stdout=subprocess.PIPE,
-                            stderr=subprocess.PIPE, text=True, timeout=timeout)
+        # a shard normally takes well under a second per scenario; a harness that is still running long after that is
+        # stuck in the code under test (run_proc then asks it for its goroutines' stacks)
+        rc, so, se, hung = vlib.run_proc([exe, 'srv', '--in', p, '--out', out], ctx.scratch, max(240, 3 * sum(1 for _ in open(p))) if timeout == 900 else timeout)
+        pr = subprocess.CompletedProcess([exe], rc, so, se)
         return p, out + '.0', pr
     merged = os.path.join(ctx.scratch, label + '.traces')
     racelog = []
@@ -157,10 +159,11 @@ def crashed(ctx, props, label):
     """A harness process the Go runtime killed with the library on the stack: C17 ("serving the connection never
     panics ...") owns the verdict; confirmed by running that shard of scenarios once more."""
     for p, log in getattr(ctx, 'crashes', []):
-        kind = 'deadlocked' if 'all goroutines are asleep' in log else 'crashed'
+        kind = 'deadlocked' if 'all goroutines are asleep' in log else 'hung' if 'harness process hung' in log else 'crashed'
         if 'C17' not in props:
             raise vlib.Inconclusive('h2v srv %s on %s (C17 owns this verdict):\n%s' % (kind, p, log[-1500:]))
-        pr = subprocess.run([ctx.harness(), 'srv', '--in', p, '--out', p + '.again'], cwd=ctx.scratch, stdout=subprocess.PIPE, stderr=subprocess.PIPE, text=True, timeout=900)
+        rc2, so2, se2, _h = vlib.run_proc([ctx.harness(), 'srv', '--in', p, '--out', p + '.again'], ctx.scratch, max(240, 3 * sum(1 for _ in open(p))))
+        pr = subprocess.CompletedProcess([ctx.harness()], rc2, so2, se2)
         if pr.returncode != 0 and 'github.com/dgrr/http2.' in pr.stderr:
             lines = [l for l in log.splitlines() if 'github.com/dgrr/http2.' in l][:8]
             ctx.report('C17:process-' + kind, '%s: C17:process-%s (the Go runtime stopped the harness process; library frames: %s)' % (label, kind, ' | '.join(x.strip() for x in lines)[:400]),
